@@ -254,6 +254,22 @@ def _vectors(ncoef, seed, tag, limit):
     return dedup(vals)
 
 
+def unit_plus_one(ncoef, seed, tag):
+    """2-sparse vectors with one coefficient exactly 1 or -1 and one generic coefficient (every ordered position pair): elements
+    such as 1 + t*w^5 whose norms / intermediate values hit the constants that shortcuts test for (is_one, is_zero) only partly"""
+    fl = fillers(seed, tag + "u1", ncoef, q)
+    out = []
+    for i in range(ncoef):
+        for j in range(ncoef):
+            if i != j:
+                for c in (1, q - 1):
+                    v = [0] * ncoef
+                    v[i] = c
+                    v[j] = fl[j]
+                    out.append(tuple(v))
+    return out
+
+
 def fq6_alphabet(seed, limit=64):
     return [((v[0], v[1]), (v[2], v[3]), (v[4], v[5])) for v in _vectors(6, seed, "f6", limit)]
 
